@@ -107,7 +107,10 @@ class StmtMixin:
 
     def target_type(self, t, st):
         if isinstance(t, ast.Name):
-            return self.contract.locals.get(t.id)
+            ty = self.contract.locals.get(t.id)
+            return ty.arg if ty is not None and ty.kind == "opt" else ty
+        if isinstance(t, (ast.Tuple, ast.List)):
+            return None
         try:
             if isinstance(t, ast.Attribute):
                 obj = self.ev(t.value, st)
@@ -180,6 +183,12 @@ class StmtMixin:
             return
         if isinstance(target, ast.Attribute):
             obj = self.ev(target.value, st)
+            if isinstance(obj, PyVal) and obj.kind == "class":
+                cv = self.reg.class_var(obj.name, target.attr)
+                if cv is None:
+                    raise Unsupported("assignment to class attribute %s.%s" % (obj.name, target.attr))
+                st.hset("$cv.%s.%s" % (cv[0], target.attr), self.coerce(v, cv[1], st).t)
+                return
             if is_sv(obj) and obj.ty.kind == "opt":
                 obj = self.unopt(obj, st, False)
             if not (is_sv(obj) and obj.ty.kind == "ref"):
@@ -380,6 +389,7 @@ class StmtMixin:
             self.check_invariants(n, invs, st, "inv-init")
             written = self.dry_run(lambda s: self.loop_body_once(node, view, kname, s, dry=True), st)
             self.havoc_written(written, st, n)
+            self.loop_frame(st, written, None)
             k = self.ctx.fresh(kname, z3.IntSort())
             st.env[kname] = mk_int(k)
             st.assume(k >= 0)
@@ -398,6 +408,7 @@ class StmtMixin:
                     return
                 st.env[kname] = mk_int(k + 1)
                 self.check_invariants(n, invs, st, "inv-keep")
+                self.loop_frame(st, written, "inv-keep-frame#%d" % n)
                 raise PathEnd()
             else:
                 st.assume(k >= view["len"](st))
@@ -439,6 +450,7 @@ class StmtMixin:
         self.check_invariants(n, invs, st, "inv-init")
         written = self.dry_run(lambda s: self.while_body_once(node, s), st)
         self.havoc_written(written, st, n)
+        self.loop_frame(st, written, None)
         k = self.ctx.fresh(kname, z3.IntSort())
         st.env[kname] = mk_int(k)
         st.assume(k >= 0)
@@ -455,6 +467,7 @@ class StmtMixin:
                 return
             st.env[kname] = mk_int(k + 1)
             self.check_invariants(n, invs, st, "inv-keep")
+            self.loop_frame(st, written, "inv-keep-frame#%d" % n)
             raise PathEnd()
         st.assume(z3.Not(c))
         self.check_feasible(st)
@@ -469,6 +482,17 @@ class StmtMixin:
             self.exec_block(node.body, st)
         except ContinueSig:
             pass
+
+    def loop_frame(self, st, written, kind):
+        """the function's frame condition as an implicit loop invariant (assumed after the havoc, asserted at back edges)"""
+        if self.ctx.dry or st.entry is None:
+            return
+        from .verify import check_frame
+        keys = {name for k, name in written if k == "heap" and name != "$alloc"}
+        if kind is None:
+            check_frame(self, st, self.contract, assume_keys=keys)
+        else:
+            check_frame(self, st, self.contract, kind=kind)
 
     def loop_ordinal(self, node):
         return self.loop_ord[id(node)]
